@@ -2,68 +2,73 @@ package main
 
 import (
 	"fmt"
-	"os"
-	"path/filepath"
+	"math/rand/v2"
 
-	auto "github.com/gnolang/gno/tm2/pkg/autofile"
-	walm "github.com/gnolang/gno/tm2/pkg/bft/wal"
-	"github.com/gnolang/gno/tm2/pkg/log"
-
-	c38 "verifharness/checks/c38"
+	"github.com/gnolang/gno/tm2/pkg/bft/types"
+	"github.com/gnolang/gno/tm2/pkg/crypto/ed25519"
 )
 
-func main() {
-	dir, _ := os.MkdirTemp("/verif/.work", "probe")
-	defer os.RemoveAll(dir)
-	wal, err := walm.NewWAL(filepath.Join(dir, "wal"), 1<<20, auto.GroupHeadSizeLimit(60))
-	if err != nil {
-		panic(err)
+func key(i int) ed25519.PrivKeyEd25519 { return ed25519.GenPrivKeyFromSecret([]byte(fmt.Sprintf("k%d", i))) }
+
+func pr(vs *types.ValidatorSet) string {
+	s := ""
+	for _, v := range vs.Validators {
+		s += fmt.Sprintf("%d(p%d) ", v.ProposerPriority, v.VotingPower)
 	}
-	wal.SetLogger(log.NewNoopLogger())
-	wal.Start() // writes #0
-	for i := 1; i <= 6; i++ {
-		wal.Write(c38.RoundStepMsg{Height: 1, Round: i, Step: 1})
-	}
-	wal.WriteMetaSync(walm.MetaMessage{Height: 1})
-	wal.Write(c38.RoundStepMsg{Height: 2, Round: 0, Step: 1})
-	wal.FlushAndSync()
-	ents, _ := os.ReadDir(dir)
-	for _, e := range ents {
-		b, _ := os.ReadFile(filepath.Join(dir, e.Name()))
-		n := 0
-		meta := ""
-		for _, ln := range splitLines(b) {
-			n++
-			if len(ln) > 0 && ln[0] == '#' {
-				meta += " " + ln
-			}
-		}
-		fmt.Printf("%s: %d lines%s\n", e.Name(), n, meta)
-	}
-	for _, h := range []int64{1, 0, 2} {
-		func() {
-			defer func() {
-				if r := recover(); r != nil {
-					fmt.Println("SearchForHeight", h, "PANIC:", r)
-				}
-			}()
-			_, found, err := wal.SearchForHeight(h, nil)
-			fmt.Println("SearchForHeight", h, "found", found, "err", err)
-		}()
-	}
-	wal.Stop()
+	return s
 }
 
-func splitLines(b []byte) []string {
-	var out []string
-	cur := ""
-	for _, c := range b {
-		if c == '\n' {
-			out = append(out, cur)
-			cur = ""
-		} else {
-			cur += string(c)
+func main() {
+	r := rand.New(rand.NewPCG(1, 2))
+	diff, total := 0, 0
+	kinds := map[string]int{}
+	for t := 0; t < 20000; t++ {
+		n := 2 + r.IntN(3)
+		var vals []*types.Validator
+		for i := 0; i < n; i++ {
+			vals = append(vals, types.NewValidator(key(i).PubKey(), 1+r.Int64N(100)))
+		}
+		vs := types.NewValidatorSet(vals)
+		for k := r.IntN(6); k > 0; k-- {
+			vs.IncrementProposerPriority(1)
+		}
+		kind := ""
+		var ch []*types.Validator
+		switch r.IntN(4) {
+		case 0:
+			kind = "add1"
+			ch = append(ch, types.NewValidator(key(9).PubKey(), 1))
+		case 1:
+			kind = "remove"
+			ch = append(ch, types.NewValidator(key(0).PubKey(), 0))
+		case 2:
+			kind = "remove+add1"
+			ch = append(ch, types.NewValidator(key(0).PubKey(), 0), types.NewValidator(key(9).PubKey(), 1))
+		default:
+			kind = "addbig"
+			ch = append(ch, types.NewValidator(key(9).PubKey(), 500))
+		}
+		before := pr(vs)
+		if err := vs.UpdateWithChangeSet(ch); err != nil {
+			continue
+		}
+		vs.IncrementProposerPriority(1) // V[c]
+		total++
+		for m := 2; m <= 4; m++ {
+			a := vs.CopyIncrementProposerPriority(m)
+			b := vs.Copy()
+			for j := 0; j < m; j++ {
+				b.IncrementProposerPriority(1)
+			}
+			if pr(a) != pr(b) {
+				diff++
+				kinds[kind]++
+				if diff <= 3 {
+					fmt.Printf("kind=%s m=%d\n before change: %s\n V[c]: %s\n inc(%d): %s\n inc(1)x%d: %s\n", kind, m, before, pr(vs), m, pr(a), m, pr(b))
+				}
+				break
+			}
 		}
 	}
-	return out
+	fmt.Println("differ", diff, "of", total, kinds)
 }
